@@ -31,12 +31,14 @@ class Ctx:
         self.rules = {}   # rule id -> description
 
     # ------------------------------------------------------------ facts
-    def facts(self, config="default"):
-        if config not in self._facts:
+    def facts(self, config="default", keep_helper=None, variant=""):
+        """keep_helper / variant: a second view of the same configuration in which some new helpers are NOT expanded (cached under config + variant)."""
+        key = config + variant
+        if key not in self._facts:
             raw, info = extract.extract_repo(config, repo=self.repo)
             self.extract_info.append(info)
-            self._facts[config] = Facts(raw)
-        return self._facts[config]
+            self._facts[key] = Facts(raw, keep_helper=keep_helper) if keep_helper else Facts(raw)
+        return self._facts[key]
 
     def harness(self, name, **kw):
         if name not in self._harness or kw.get("hdir"):
